@@ -8,6 +8,7 @@ import ast
 
 from ..astx import walk_no_nested, dotted, call_name, self_attr, func_params, parent, dominating_conditions, flatten_conditions
 from ..core import norm, Inconclusive
+from .. import pat
 
 DICT = "graphtage.graphtage.DictNode"
 REVIEWED_DIRECT = {
@@ -90,8 +91,12 @@ def r08b(ctx):
                           + ("a list must keep order" if cname == "ListNode" else "a mapping/multiset must not depend on order"))
     hq = m.need_class("HashableCounter")
     hh = m.method(hq, "__hash__")
-    t = ast.unparse(hh.node).replace(" ", "")
-    if "h^=hash((key,value))" in t and "forkey,valueinself.items()" in t:
+    fold = None
+    for lp in walk_no_nested(hh.node):
+        if isinstance(lp, ast.For) and ast.unparse(lp.iter).replace(" ", "") == "self.items()" and isinstance(lp.target, ast.Tuple):
+            k_, v_ = (x.id for x in lp.target.elts)
+            fold = pat.first(f"H ^= hash(({k_}, {v_}))", lp)[1]
+    if fold is not None and isinstance(hh.node.body[-1], ast.Return) and dotted(hh.node.body[-1].value) == fold["H"]:
         ctx.proved("R08b", hh.file, "HashableCounter.__hash__", hh.node, "commutative hash", "XOR fold over (key, count) pairs")
     else:
         ctx.violation("R08b", hh.file, "HashableCounter.__hash__", hh.node, "commutative hash",
